@@ -150,6 +150,7 @@ func C06(p *load.Prog, r *report.Report) {
 		r.Undecided("C06.anchor", "scalar.Invert", "", "function not found")
 	}
 	c06Pow(p, r, m, s, t)
+	siblingChecks(p, r, "C06")
 }
 
 func c06Pow(p *load.Prog, r *report.Report, m *elemModel, s, t *absint.Poly) {
